@@ -204,12 +204,22 @@ def result_to_xml(result: Result, **kwargs) -> etree._Element:
     return result_elem
 
 
+def _xml_compatible(text: str) -> str:
+    """
+    Messages may quote client input (e.g. an identifier that wasn't found), which is not restricted to the characters
+    an XML document can carry (the ones allowed by constraint AASd-130). Any other character is replaced by its Python
+    escape sequence (e.g. ``\\x0b``).
+    """
+    return "".join(char if model._string_constraints.AASD130_RE.fullmatch(char)
+                   else char.encode("unicode_escape").decode("ascii") for char in text)
+
+
 def message_to_xml(message: Message) -> etree._Element:
     message_elem = etree.Element("message")
     message_type_elem = etree.Element("messageType")
     message_type_elem.text = str(message.message_type)
     text_elem = etree.Element("text")
-    text_elem.text = message.text
+    text_elem.text = _xml_compatible(message.text)
     code_elem = etree.Element("code")
     code_elem.text = message.code
     timestamp_elem = etree.Element("timestamp")
